@@ -27,6 +27,8 @@ MODULES = {
     "C13": "vf.c13",
     "C14": "vf.c14",
     "C15": "vf.c15",
+    "C16": "vf.c16",
+    "C17": "vf.c17",
     "C19": "vf.c19",
 }
 
